@@ -1,1 +1,879 @@
-//! server-history simulator (filled in later)
+//! Deterministic server-history simulator: one thread drives a real `HttpServer` and real
+//! non-blocking `UnixStream` clients through a list of actions. Unix sockets deliver
+//! synchronously inside one process, so the same action list reproduces the same execution.
+use std::collections::BTreeSet;
+use std::io::{Read, Write};
+use std::os::unix::io::{AsRawFd, FromRawFd, RawFd};
+use std::os::unix::net::UnixStream;
+use std::sync::atomic::{AtomicU64, Ordering};
+
+use micro_http::{Body, HttpServer, Response, ServerError, ServerRequest, StatusCode, Version};
+use vmm_sys_util::eventfd::EventFd;
+
+use crate::conn::guarded;
+use crate::model::{m1, read_response, M1Event, RespParse, RespView};
+
+pub const FULL_503: &[u8] = b"HTTP/1.1 503\r\nServer: Firecracker API\r\nConnection: close\r\nContent-Length: 40\r\n\r\n{ \"error\": \"Too many open connections\" }";
+
+static COUNTER: AtomicU64 = AtomicU64::new(0);
+
+// ------------------------------------------------------------------ kernel-side observations
+
+/// Open descriptor numbers in 0..limit.
+pub fn open_fds(limit: i32) -> Vec<i32> {
+    (0..limit).filter(|fd| unsafe { libc::fcntl(*fd, libc::F_GETFD) } != -1).collect()
+}
+
+pub fn is_socket(fd: i32) -> bool {
+    // SAFETY: fstat on an arbitrary number only fills the local struct.
+    unsafe {
+        let mut st: libc::stat = std::mem::zeroed();
+        libc::fstat(fd, &mut st) == 0 && (st.st_mode & libc::S_IFMT) == libc::S_IFSOCK
+    }
+}
+
+/// (descriptor, event mask) pairs registered in the epoll instance, from /proc/self/fdinfo.
+pub fn epoll_interest(epfd: RawFd) -> Vec<(i32, u32)> {
+    let mut out = Vec::new();
+    if let Ok(text) = std::fs::read_to_string(format!("/proc/self/fdinfo/{}", epfd)) {
+        for line in text.lines() {
+            if let Some(rest) = line.strip_prefix("tfd:") {
+                let parts: Vec<&str> = rest.split_whitespace().collect();
+                // tfd: <fd> events: <hex> data: <hex> ...
+                if parts.len() >= 3 {
+                    if let (Ok(fd), Ok(ev)) = (parts[0].parse::<i32>(), u32::from_str_radix(parts[2], 16)) {
+                        out.push((fd, ev));
+                    }
+                }
+            }
+        }
+    }
+    out
+}
+
+/// Zero-timeout poll(2): is the descriptor readable right now?
+pub fn readable_now(fd: RawFd) -> bool {
+    let mut p = libc::pollfd { fd, events: libc::POLLIN, revents: 0 };
+    // SAFETY: one valid pollfd, zero timeout.
+    let r = unsafe { libc::poll(&mut p, 1, 0) };
+    r > 0 && (p.revents & libc::POLLIN) != 0
+}
+
+/// sockaddr_un for an abstract name (leading NUL) or a path.
+fn sockaddr_un(name: &[u8], is_abstract: bool) -> (libc::sockaddr_un, libc::socklen_t) {
+    // SAFETY: all-zero is a valid sockaddr_un.
+    let mut a: libc::sockaddr_un = unsafe { std::mem::zeroed() };
+    a.sun_family = libc::AF_UNIX as libc::sa_family_t;
+    let off = if is_abstract { 1 } else { 0 };
+    for (i, b) in name.iter().enumerate().take(a.sun_path.len() - 2) {
+        a.sun_path[i + off] = *b as libc::c_char;
+    }
+    let len = std::mem::size_of::<libc::sa_family_t>() + off + name.len().min(a.sun_path.len() - 2) + if is_abstract { 0 } else { 1 };
+    (a, len as libc::socklen_t)
+}
+
+/// A listening abstract-namespace socket.
+fn listen_abstract(name: &[u8]) -> Result<RawFd, String> {
+    // SAFETY: plain socket/bind/listen on a fresh descriptor.
+    unsafe {
+        let fd = libc::socket(libc::AF_UNIX, libc::SOCK_STREAM | libc::SOCK_CLOEXEC, 0);
+        if fd < 0 {
+            return Err("socket".into());
+        }
+        let (a, l) = sockaddr_un(name, true);
+        if libc::bind(fd, &a as *const _ as *const libc::sockaddr, l) != 0 || libc::listen(fd, 128) != 0 {
+            libc::close(fd);
+            return Err(format!("bind/listen: {}", std::io::Error::last_os_error()));
+        }
+        Ok(fd)
+    }
+}
+
+/// Connects a client whose own end is bound to the abstract name `my_name`, so that the
+/// accepted socket on the server side can be attributed with getpeername().
+fn connect_named(server: &[u8], server_abstract: bool, my_name: &[u8]) -> Result<UnixStream, String> {
+    // SAFETY: plain socket/bind/connect on a fresh descriptor that is then owned by the UnixStream.
+    unsafe {
+        let fd = libc::socket(libc::AF_UNIX, libc::SOCK_STREAM | libc::SOCK_CLOEXEC, 0);
+        if fd < 0 {
+            return Err("socket".into());
+        }
+        let (a, l) = sockaddr_un(my_name, true);
+        if libc::bind(fd, &a as *const _ as *const libc::sockaddr, l) != 0 {
+            libc::close(fd);
+            return Err(format!("bind client: {}", std::io::Error::last_os_error()));
+        }
+        let (sa, sl) = sockaddr_un(server, server_abstract);
+        if libc::connect(fd, &sa as *const _ as *const libc::sockaddr, sl) != 0 {
+            libc::close(fd);
+            return Err(format!("connect: {}", std::io::Error::last_os_error()));
+        }
+        Ok(UnixStream::from_raw_fd(fd))
+    }
+}
+
+/// Abstract name the peer of `fd` is bound to, if any.
+fn peer_name(fd: RawFd) -> Option<Vec<u8>> {
+    // SAFETY: getpeername fills the local struct.
+    unsafe {
+        let mut a: libc::sockaddr_un = std::mem::zeroed();
+        let mut l = std::mem::size_of::<libc::sockaddr_un>() as libc::socklen_t;
+        if libc::getpeername(fd, &mut a as *mut _ as *mut libc::sockaddr, &mut l) != 0 {
+            return None;
+        }
+        let n = (l as usize).saturating_sub(std::mem::size_of::<libc::sa_family_t>());
+        if n < 2 || a.sun_path[0] != 0 {
+            return None;
+        }
+        Some(a.sun_path[1..n].iter().map(|c| *c as u8).collect())
+    }
+}
+
+fn is_listening(fd: RawFd) -> bool {
+    let mut v: libc::c_int = 0;
+    let mut l = std::mem::size_of::<libc::c_int>() as libc::socklen_t;
+    // SAFETY: getsockopt writes an int.
+    let r = unsafe { libc::getsockopt(fd, libc::SOL_SOCKET, libc::SO_ACCEPTCONN, &mut v as *mut _ as *mut libc::c_void, &mut l) };
+    r == 0 && v != 0
+}
+
+// ------------------------------------------------------------------ client generations
+
+#[derive(Clone, Copy, Debug, PartialEq, Eq)]
+pub enum Admission {
+    Pending,
+    Accepted,
+    Refused,
+}
+
+pub struct GenRec {
+    pub client: usize,
+    pub gen: usize,
+    pub stream: Option<UnixStream>,
+    pub fd: RawFd,
+    pub sent: Vec<u8>,
+    pub recv: Vec<u8>,
+    pub eof_seen: bool,
+    pub read_err: Option<i32>,
+    pub client_closed: bool,
+    pub shut_rd: bool,
+    pub shut_wr: bool,
+    pub admission: Admission,
+    /// payload limit configured on the server when this client was accepted
+    pub limit_at_accept: usize,
+    /// number of requests this generation has started to send
+    pub seq: usize,
+    /// bytes of a request whose first part has been sent (Head -> Rest)
+    pub pending_rest: Option<Vec<u8>>,
+    /// tags yielded to the application, in order
+    pub yielded: Vec<String>,
+    /// tags answered by the application, in the order supplied, with the response body length
+    pub supplied: Vec<(String, usize)>,
+    /// requests the client has sent completely (tags, in order) — harness truth
+    pub completed: Vec<String>,
+    pub connect_step: usize,
+    pub close_step: Option<usize>,
+    /// a send to this generation failed (EPIPE...) — the client can no longer talk
+    pub send_failed: bool,
+    /// a server-side socket whose peer is this generation has been observed
+    pub had_server_socket: bool,
+    /// number of send actions performed on this generation
+    pub sends: usize,
+}
+
+impl GenRec {
+    pub fn tag_prefix(&self) -> String {
+        format!("/c{}g{}r", self.client, self.gen)
+    }
+    pub fn open(&self) -> bool {
+        self.stream.is_some() && !self.client_closed
+    }
+}
+
+pub struct Outstanding {
+    pub sreq: ServerRequest,
+    pub tag: String,
+    pub gen_idx: Option<usize>,
+    pub yield_step: usize,
+}
+
+#[derive(Debug, Clone, PartialEq, Eq)]
+pub enum PollOut {
+    /// the epoll descriptor was not readable: requests() would block, so it was not called
+    Idle,
+    Yielded(usize),
+    Shutdown,
+    Err(String),
+    Panic(String),
+}
+
+pub struct Sim {
+    pub server: HttpServer,
+    pub epfd: RawFd,
+    pub listener_fd: RawFd,
+    pub kill: Option<EventFd>,
+    pub kill_fd: RawFd,
+    server_name: Vec<u8>,
+    server_abstract: bool,
+    sock_path: Option<String>,
+    uniq: u64,
+    pub gens: Vec<GenRec>,
+    /// current generation index per logical client
+    pub current: Vec<Option<usize>>,
+    pub outstanding: Vec<Outstanding>,
+    pub step: usize,
+    pub polls: u64,
+    pub idle_polls: u64,
+    pub limit: usize,
+    /// every Err / panic from requests(), respond(), flush — (step, text)
+    pub api_errors: Vec<(usize, String)>,
+    /// yields whose URI carries no known tag
+    pub untagged_yields: Vec<String>,
+    pub shutdown_seen: u64,
+    /// max ticks seen in one requests() call
+    pub max_ticks: u64,
+    pub fd_scan_limit: i32,
+}
+
+pub fn make_request(tag: &str, kind: ReqKind) -> Vec<u8> {
+    match kind {
+        ReqKind::Get => format!("GET {} HTTP/1.1\r\nX-Tag: {}\r\n\r\n", tag, tag).into_bytes(),
+        ReqKind::PutBody(n) => {
+            let mut body = format!("<{}>", tag).into_bytes();
+            while body.len() < n {
+                body.push(b'b');
+            }
+            body.truncate(n.max(1));
+            let mut v = format!("PUT {} HTTP/1.1\r\nContent-Type: application/json\r\nContent-Length: {}\r\n\r\n", tag, body.len()).into_bytes();
+            v.extend_from_slice(&body);
+            v
+        }
+        ReqKind::PutExpect(n) => {
+            let mut body = format!("<{}>", tag).into_bytes();
+            while body.len() < n {
+                body.push(b'e');
+            }
+            body.truncate(n.max(1));
+            let mut v = format!("PUT {} HTTP/1.0\r\nExpect: 100-continue\r\nContent-Length: {}\r\n\r\n", tag, body.len()).into_bytes();
+            v.extend_from_slice(&body);
+            v
+        }
+    }
+}
+
+#[derive(Clone, Copy, Debug, PartialEq, Eq)]
+pub enum ReqKind {
+    Get,
+    PutBody(usize),
+    PutExpect(usize),
+}
+
+impl Sim {
+    /// `use_path`: bind a path under `run_dir` through HttpServer::new instead of an abstract name.
+    pub fn new(with_kill: bool, run_dir: Option<&str>) -> Result<Sim, String> {
+        let n = COUNTER.fetch_add(1, Ordering::Relaxed);
+        let name = format!("mhv-{}-{}", std::process::id(), n);
+        let (mut server, server_name, server_abstract, sock_path, listener_fd) = match run_dir {
+            Some(dir) if !dir.is_empty() => {
+                let path = format!("{}/s-{}-{}.sock", dir, std::process::id(), n);
+                let _ = std::fs::remove_file(&path);
+                let server = HttpServer::new(&path).map_err(|e| format!("HttpServer::new: {:?}", e))?;
+                (server, path.clone().into_bytes(), false, Some(path), -1)
+            }
+            _ => {
+                let fd = listen_abstract(name.as_bytes())?;
+                // SAFETY: fd is a fresh listener solely owned by the server from here on.
+                let server = unsafe { HttpServer::new_from_fd(fd) }.map_err(|e| format!("new_from_fd: {:?}", e))?;
+                (server, name.clone().into_bytes(), true, None, fd)
+            }
+        };
+        let mut kill = None;
+        let mut kill_fd = -1;
+        if with_kill {
+            let k = EventFd::new(libc::EFD_NONBLOCK).map_err(|e| e.to_string())?;
+            let k2 = k.try_clone().map_err(|e| e.to_string())?;
+            kill_fd = k.as_raw_fd();
+            server.add_kill_switch(k).map_err(|e| format!("add_kill_switch: {:?}", e))?;
+            kill = Some(k2);
+        }
+        server.start_server().map_err(|e| format!("start_server: {:?}", e))?;
+        let epfd = server.epoll().as_raw_fd();
+        Ok(Sim {
+            server,
+            epfd,
+            listener_fd,
+            kill,
+            kill_fd,
+            server_name,
+            server_abstract,
+            sock_path,
+            uniq: n,
+            gens: Vec::new(),
+            current: Vec::new(),
+            outstanding: Vec::new(),
+            step: 0,
+            polls: 0,
+            idle_polls: 0,
+            limit: 51200,
+            api_errors: Vec::new(),
+            untagged_yields: Vec::new(),
+            shutdown_seen: 0,
+            max_ticks: 0,
+            fd_scan_limit: 96,
+        })
+    }
+
+    pub fn gen_of(&self, client: usize) -> Option<usize> {
+        self.current.get(client).copied().flatten()
+    }
+
+    pub fn connect(&mut self, client: usize) -> bool {
+        self.step += 1;
+        while self.current.len() <= client {
+            self.current.push(None);
+        }
+        let gen = self.gens.iter().filter(|g| g.client == client).count();
+        let my_name = format!("mhvc-{}-{}-{}-{}", std::process::id(), self.uniq, client, gen);
+        let s = match connect_named(&self.server_name, self.server_abstract, my_name.as_bytes()) {
+            Ok(s) => s,
+            Err(_) => return false,
+        };
+        let _ = s.set_nonblocking(true);
+        let fd = s.as_raw_fd();
+        self.gens.push(GenRec {
+            client,
+            gen,
+            stream: Some(s),
+            fd,
+            sent: Vec::new(),
+            recv: Vec::new(),
+            eof_seen: false,
+            read_err: None,
+            client_closed: false,
+            shut_rd: false,
+            shut_wr: false,
+            admission: Admission::Pending,
+            limit_at_accept: self.limit,
+            seq: 0,
+            pending_rest: None,
+            yielded: Vec::new(),
+            supplied: Vec::new(),
+            completed: Vec::new(),
+            connect_step: self.step,
+            close_step: None,
+            send_failed: false,
+            had_server_socket: false,
+            sends: 0,
+        });
+        self.current[client] = Some(self.gens.len() - 1);
+        true
+    }
+
+    /// Raw send of bytes; returns how many were accepted by the socket.
+    pub fn send_bytes(&mut self, gi: usize, data: &[u8]) -> usize {
+        self.step += 1;
+        let g = &mut self.gens[gi];
+        g.sends += 1;
+        let mut done = 0;
+        if let Some(s) = g.stream.as_mut() {
+            while done < data.len() {
+                match s.write(&data[done..]) {
+                    Ok(0) => break,
+                    Ok(n) => done += n,
+                    Err(e) if e.kind() == std::io::ErrorKind::Interrupted => continue,
+                    Err(e) if e.kind() == std::io::ErrorKind::WouldBlock => break,
+                    Err(_) => {
+                        g.send_failed = true;
+                        break;
+                    }
+                }
+            }
+        }
+        g.sent.extend_from_slice(&data[..done]);
+        done
+    }
+
+    /// Starts a new tagged request on generation `gi` and returns (tag, bytes).
+    pub fn next_request(&mut self, gi: usize, kind: ReqKind) -> (String, Vec<u8>) {
+        let g = &mut self.gens[gi];
+        let tag = format!("{}{}", g.tag_prefix(), g.seq);
+        g.seq += 1;
+        (tag.clone(), make_request(&tag, kind))
+    }
+
+    /// Sends a whole request; records it as completed when every byte was accepted.
+    pub fn send_request(&mut self, gi: usize, kind: ReqKind) -> bool {
+        let (tag, bytes) = self.next_request(gi, kind);
+        let n = self.send_bytes(gi, &bytes);
+        if n == bytes.len() {
+            self.gens[gi].completed.push(tag);
+            true
+        } else {
+            // a partially sent request: remember the rest so that the client can finish it
+            self.gens[gi].pending_rest = Some(bytes[n..].to_vec());
+            self.gens[gi].completed.push(format!("?{}", tag));
+            false
+        }
+    }
+
+    /// Sends the first `cut` bytes of a new request; `finish_request` sends the rest.
+    pub fn send_head(&mut self, gi: usize, kind: ReqKind, cut: usize) {
+        let (tag, bytes) = self.next_request(gi, kind);
+        let cut = cut.min(bytes.len() - 1).max(1);
+        let n = self.send_bytes(gi, &bytes[..cut]);
+        self.gens[gi].pending_rest = Some(bytes[n..].to_vec());
+        self.gens[gi].completed.push(format!("?{}", tag));
+    }
+
+    pub fn finish_request(&mut self, gi: usize) -> bool {
+        let rest = match self.gens[gi].pending_rest.take() {
+            Some(r) => r,
+            None => return false,
+        };
+        let n = self.send_bytes(gi, &rest);
+        if n == rest.len() {
+            if let Some(last) = self.gens[gi].completed.last_mut() {
+                if last.starts_with('?') {
+                    *last = last[1..].to_string();
+                }
+            }
+            true
+        } else {
+            self.gens[gi].pending_rest = Some(rest[n..].to_vec());
+            false
+        }
+    }
+
+    /// Reads up to `max` bytes (0 = everything available) from the client socket.
+    pub fn drain(&mut self, gi: usize, max: usize) -> usize {
+        self.step += 1;
+        let g = &mut self.gens[gi];
+        let mut total = 0;
+        if g.eof_seen {
+            return 0;
+        }
+        if let Some(s) = g.stream.as_mut() {
+            let mut buf = vec![0u8; 65536];
+            loop {
+                let want = if max == 0 { buf.len() } else { (max - total).min(buf.len()) };
+                if want == 0 {
+                    break;
+                }
+                match s.read(&mut buf[..want]) {
+                    Ok(0) => {
+                        g.eof_seen = true;
+                        break;
+                    }
+                    Ok(n) => {
+                        g.recv.extend_from_slice(&buf[..n]);
+                        total += n;
+                    }
+                    Err(e) if e.kind() == std::io::ErrorKind::Interrupted => continue,
+                    Err(e) if e.kind() == std::io::ErrorKind::WouldBlock => break,
+                    Err(e) => {
+                        g.read_err = e.raw_os_error();
+                        g.eof_seen = true;
+                        break;
+                    }
+                }
+            }
+        }
+        total
+    }
+
+    pub fn drain_all(&mut self) -> usize {
+        let mut t = 0;
+        for gi in 0..self.gens.len() {
+            if self.gens[gi].stream.is_some() && !self.gens[gi].shut_rd {
+                t += self.drain(gi, 0);
+            }
+        }
+        t
+    }
+
+    pub fn has_unread(&self, gi: usize) -> bool {
+        match &self.gens[gi].stream {
+            Some(s) if !self.gens[gi].eof_seen && !self.gens[gi].shut_rd => readable_now(s.as_raw_fd()),
+            _ => false,
+        }
+    }
+
+    pub fn close(&mut self, gi: usize) {
+        self.step += 1;
+        let step = self.step;
+        let g = &mut self.gens[gi];
+        g.stream = None; // drops and closes
+        g.client_closed = true;
+        g.close_step = Some(step);
+        if self.current[g.client] == Some(gi) {
+            self.current[g.client] = None;
+        }
+    }
+
+    pub fn shutdown(&mut self, gi: usize, how: std::net::Shutdown) {
+        self.step += 1;
+        let g = &mut self.gens[gi];
+        if let Some(s) = g.stream.as_ref() {
+            let _ = s.shutdown(how);
+        }
+        match how {
+            std::net::Shutdown::Read => g.shut_rd = true,
+            std::net::Shutdown::Write => g.shut_wr = true,
+            std::net::Shutdown::Both => {
+                g.shut_rd = true;
+                g.shut_wr = true;
+            }
+        }
+    }
+
+    pub fn ready(&self) -> bool {
+        readable_now(self.epfd)
+    }
+
+    /// One gated call of requests(): never called when the epoll descriptor is not readable.
+    pub fn poll(&mut self) -> PollOut {
+        self.step += 1;
+        if !self.ready() {
+            self.idle_polls += 1;
+            return PollOut::Idle;
+        }
+        self.polls += 1;
+        micro_http::verif::arm(40_000);
+        let r = guarded(|| self.server.requests());
+        let ticks = micro_http::verif::disarm();
+        self.max_ticks = self.max_ticks.max(ticks);
+        match r {
+            Err(p) => {
+                self.api_errors.push((self.step, format!("requests() panicked: {}", p)));
+                PollOut::Panic(p)
+            }
+            Ok(Err(ServerError::ShutdownEvent)) => {
+                self.shutdown_seen += 1;
+                PollOut::Shutdown
+            }
+            Ok(Err(e)) => {
+                let t = format!("requests() returned Err({:?})", e);
+                self.api_errors.push((self.step, t.clone()));
+                PollOut::Err(t)
+            }
+            Ok(Ok(reqs)) => {
+                let n = reqs.len();
+                for sreq in reqs {
+                    let path = sreq.request.uri().get_abs_path().to_string();
+                    let gen_idx = self.gens.iter().position(|g| path.starts_with(&g.tag_prefix()) && path[g.tag_prefix().len()..].chars().all(|c| c.is_ascii_digit()) && path.len() > g.tag_prefix().len());
+                    match gen_idx {
+                        Some(gi) => self.gens[gi].yielded.push(path.clone()),
+                        None => self.untagged_yields.push(path.clone()),
+                    }
+                    self.outstanding.push(Outstanding { sreq, tag: path, gen_idx, yield_step: self.step });
+                }
+                PollOut::Yielded(n)
+            }
+        }
+    }
+
+    /// The application answers outstanding request number `oi` with a body of `size` bytes
+    /// that starts with the request's tag.
+    pub fn respond(&mut self, oi: usize, size: usize) -> bool {
+        self.step += 1;
+        let o = self.outstanding.remove(oi);
+        let mut body = format!("{}|", o.tag).into_bytes();
+        while body.len() < size {
+            body.push(b'r');
+        }
+        let blen = body.len();
+        let resp = o.sreq.process(|req| {
+            let mut r = Response::new(req.http_version(), StatusCode::OK);
+            r.set_body(Body::new(body.clone()));
+            r
+        });
+        if let Some(gi) = o.gen_idx {
+            self.gens[gi].supplied.push((o.tag.clone(), blen));
+        }
+        match guarded(|| self.server.respond(resp)) {
+            Err(p) => {
+                self.api_errors.push((self.step, format!("respond() panicked: {}", p)));
+                false
+            }
+            Ok(Err(e)) => {
+                self.api_errors.push((self.step, format!("respond() returned Err({:?})", e)));
+                false
+            }
+            Ok(Ok(())) => true,
+        }
+    }
+
+    /// Witness macro step: send one GET, poll (gated) until it is yielded, answer it, poll until the
+    /// response has arrived in full. Requests of other clients yielded meanwhile stay outstanding.
+    /// Returns the number of requests() calls used, or why the round trip did not complete.
+    pub fn round_trip(&mut self, client: usize, max_polls: usize) -> Result<usize, String> {
+        let gi = match self.gen_of(client) {
+            Some(g) => g,
+            None => return Err("witness is not connected".into()),
+        };
+        let before = self.gens[gi].supplied.len();
+        let (tag, bytes) = self.next_request(gi, ReqKind::Get);
+        if self.send_bytes(gi, &bytes) != bytes.len() {
+            return Err("witness could not send its request".into());
+        }
+        self.gens[gi].completed.push(tag.clone());
+        let mut calls = 0;
+        let mut answered = false;
+        loop {
+            self.drain(gi, 0);
+            if answered {
+                if let Ok(v) = judge_client(&self.gens[gi], &JudgeOpts { allow_500: true }) {
+                    if v.app_responses > before && v.partial_tail == 0 && v.app_responses == self.gens[gi].supplied.len() {
+                        return Ok(calls);
+                    }
+                }
+            }
+            if !answered {
+                if let Some(oi) = self.outstanding.iter().position(|o| o.tag == tag) {
+                    self.respond(oi, 0);
+                    answered = true;
+                    continue;
+                }
+            }
+            if calls >= max_polls {
+                return Err(format!("{} polling calls were not enough (request yielded: {})", calls, answered));
+            }
+            match self.poll() {
+                PollOut::Idle => return Err(format!("the epoll descriptor is not readable although the witness request {} is {} (after {} calls)", tag, if answered { "answered but not delivered" } else { "sent but not yielded" }, calls)),
+                PollOut::Yielded(_) => calls += 1,
+                PollOut::Err(e) => return Err(e),
+                PollOut::Panic(p) => return Err(p),
+                PollOut::Shutdown => return Err("shutdown reported".into()),
+            }
+        }
+    }
+
+    pub fn flush(&mut self) {
+        self.step += 1;
+        micro_http::verif::arm(4096);
+        let r = guarded(|| self.server.flush_outgoing_writes());
+        micro_http::verif::disarm();
+        if let Err(p) = r {
+            self.api_errors.push((self.step, format!("flush_outgoing_writes() panicked: {}", p)));
+        }
+    }
+
+    pub fn set_limit(&mut self, l: usize) {
+        self.step += 1;
+        self.limit = l;
+        self.server.set_payload_max_size(l);
+    }
+
+    pub fn signal_kill(&mut self) {
+        self.step += 1;
+        if let Some(k) = &self.kill {
+            let _ = k.write(1);
+        }
+    }
+
+    /// Connected (non-listening) sockets of the process that are not client ends: the server's
+    /// accepted connections, each attributed to a client generation through getpeername().
+    pub fn server_side_sockets(&self) -> Vec<(i32, Option<usize>)> {
+        let mine: BTreeSet<i32> = self.gens.iter().filter_map(|g| g.stream.as_ref().map(|s| s.as_raw_fd())).collect();
+        let prefix = format!("mhvc-{}-{}-", std::process::id(), self.uniq);
+        open_fds(self.fd_scan_limit)
+            .into_iter()
+            .filter(|fd| !mine.contains(fd) && *fd != self.epfd && *fd != self.kill_fd && is_socket(*fd) && !is_listening(*fd))
+            .map(|fd| {
+                let gi = peer_name(fd).and_then(|n| {
+                    let t = String::from_utf8_lossy(&n).to_string();
+                    let rest = t.strip_prefix(&prefix)?.to_string();
+                    let mut it = rest.split('-');
+                    let c: usize = it.next()?.parse().ok()?;
+                    let g: usize = it.next()?.parse().ok()?;
+                    self.gens.iter().position(|x| x.client == c && x.gen == g)
+                });
+                (fd, gi)
+            })
+            .collect()
+    }
+
+    /// Entries registered in the server's epoll set other than listener and kill switch.
+    pub fn epoll_entries(&self) -> Vec<(i32, u32)> {
+        epoll_interest(self.epfd).into_iter().filter(|(fd, _)| *fd != self.kill_fd && !is_listening(*fd)).collect()
+    }
+
+    /// Updates what is observable about admissions: a generation whose peer socket exists on the
+    /// server side has been accepted; one that can read the 503 text (or EOF without ever having
+    /// had a server-side socket) has been refused.
+    pub fn observe_admissions(&mut self) -> Vec<(i32, Option<usize>)> {
+        let socks = self.server_side_sockets();
+        for (_, gi) in &socks {
+            if let Some(gi) = gi {
+                if self.gens[*gi].admission == Admission::Pending {
+                    self.gens[*gi].admission = Admission::Accepted;
+                    self.gens[*gi].limit_at_accept = self.limit;
+                }
+                self.gens[*gi].had_server_socket = true;
+            }
+        }
+        for gi in 0..self.gens.len() {
+            if self.gens[gi].admission != Admission::Pending || self.gens[gi].stream.is_none() {
+                continue;
+            }
+            if self.has_unread(gi) {
+                let fd = self.gens[gi].stream.as_ref().unwrap().as_raw_fd();
+                let mut buf = [0u8; 16];
+                // SAFETY: MSG_PEEK into a local buffer.
+                let n = unsafe { libc::recv(fd, buf.as_mut_ptr() as *mut libc::c_void, buf.len(), libc::MSG_PEEK | libc::MSG_DONTWAIT) };
+                if n == 0 || (n >= 12 && &buf[..12] == b"HTTP/1.1 503") {
+                    self.gens[gi].admission = Admission::Refused;
+                }
+            }
+        }
+        socks
+    }
+
+    /// Does the application still owe answers for requests yielded from this generation?
+    pub fn owed(&self, g: &GenRec) -> bool {
+        g.yielded.len() > g.supplied.len()
+    }
+
+    /// Poll while ready (bounded), draining clients in between. Returns the number of calls made.
+    pub fn settle(&mut self, max_polls: usize, answer: Option<usize>) -> (usize, bool) {
+        let mut calls = 0;
+        let mut quiet_rounds = 0;
+        while calls < max_polls {
+            if let Some(size) = answer {
+                while !self.outstanding.is_empty() {
+                    self.respond(0, size);
+                }
+            }
+            let drained = self.drain_all();
+            match self.poll() {
+                PollOut::Idle => {
+                    if drained == 0 {
+                        quiet_rounds += 1;
+                        if quiet_rounds >= 2 {
+                            return (calls, true);
+                        }
+                    } else {
+                        quiet_rounds = 0;
+                    }
+                }
+                PollOut::Shutdown | PollOut::Panic(_) => return (calls, false),
+                _ => {
+                    calls += 1;
+                    quiet_rounds = 0;
+                }
+            }
+        }
+        (calls, false)
+    }
+}
+
+// ------------------------------------------------------------------ M6: judging what a client received
+
+#[derive(Debug, Default)]
+pub struct ClientVerdict {
+    pub app_responses: usize,
+    pub continues: usize,
+    pub bad_requests: usize,
+    pub internal_errors: usize,
+    pub refused_503: bool,
+    pub partial_tail: usize,
+}
+
+pub struct JudgeOpts {
+    /// 500 responses are tolerated (C07/C09) or unexpected (C08)
+    pub allow_500: bool,
+}
+
+/// Judges everything generation `g` has received. Returns Err((kind, detail)) on the first fault.
+pub fn judge_client(g: &GenRec, opts: &JudgeOpts) -> Result<ClientVerdict, (String, String)> {
+    let mut v = ClientVerdict::default();
+    let b = &g.recv;
+    if g.admission == Admission::Refused || (b.len() >= 12 && &b[..12] == b"HTTP/1.1 503") {
+        // the whole content of a refused connection is the fixed message
+        if b.len() > FULL_503.len() || b[..] != FULL_503[..b.len()] {
+            return Err(("bad-503".into(), format!("refused client c{}g{} received {:?}", g.client, g.gen, crate::util::show(b))));
+        }
+        v.refused_503 = true;
+        return Ok(v);
+    }
+    // what this client's own input allows
+    let m = m1(&g.sent, g.limit_at_accept);
+    let allowed_100 = m.events.iter().filter(|e| matches!(e, M1Event::Continue100 { .. })).count();
+    let has_parse_error = m.events.iter().any(|e| matches!(e, M1Event::Error { .. })) || m.dont_care;
+    let mut p = 0usize;
+    let mut next_supplied = 0usize;
+    let mut seen_tags: Vec<String> = Vec::new();
+    while p < b.len() {
+        let r: RespView = match read_response(&b[p..]) {
+            RespParse::Complete(r) => r,
+            RespParse::Partial => {
+                v.partial_tail = b.len() - p;
+                break;
+            }
+            RespParse::Malformed(e) => {
+                return Err(("malformed-bytes".into(), format!("c{}g{} received bytes that are not a well-formed response ({}) at offset {}: {:?}", g.client, g.gen, e, p, crate::util::show(&b[p..]))));
+            }
+        };
+        p += r.len;
+        match r.code {
+            100 => {
+                v.continues += 1;
+                if v.continues > allowed_100 {
+                    return Err(("unexplained-100".into(), format!("c{}g{} received {} interim responses, its input justifies {}", g.client, g.gen, v.continues, allowed_100)));
+                }
+            }
+            400 => {
+                v.bad_requests += 1;
+                if !has_parse_error {
+                    return Err(("unexplained-400".into(), format!("c{}g{} received a 400 but its input {:?} is well-formed", g.client, g.gen, crate::util::show(&g.sent))));
+                }
+            }
+            500 => {
+                v.internal_errors += 1;
+                if !opts.allow_500 {
+                    return Err(("unexplained-500".into(), format!("c{}g{} received a 500: {:?}", g.client, g.gen, String::from_utf8_lossy(&r.body))));
+                }
+            }
+            200 => {
+                // application response: body = "<tag>|padding"
+                let body = &r.body;
+                let bar = body.iter().position(|c| *c == b'|').unwrap_or(body.len());
+                let tag = String::from_utf8_lossy(&body[..bar]).to_string();
+                if !tag.starts_with(&g.tag_prefix()) {
+                    return Err(("foreign-response".into(), format!("c{}g{} received the response for {:?}, which is not one of its requests", g.client, g.gen, tag)));
+                }
+                if seen_tags.contains(&tag) {
+                    return Err(("duplicate-response".into(), format!("c{}g{} received the response for {:?} twice", g.client, g.gen, tag)));
+                }
+                // must be supplied, and in supplied order
+                match g.supplied[next_supplied.min(g.supplied.len())..].iter().position(|(t, _)| *t == tag) {
+                    None => {
+                        let kind = if g.supplied.iter().any(|(t, _)| *t == tag) { "out-of-order-response" } else { "response-never-supplied" };
+                        return Err((kind.into(), format!("c{}g{} received the response for {:?}; supplied order {:?}", g.client, g.gen, tag, g.supplied)));
+                    }
+                    Some(off) => {
+                        let idx = next_supplied + off;
+                        if body.len() != g.supplied[idx].1 {
+                            return Err(("response-truncated".into(), format!("response for {:?} has {} body bytes, {} were supplied", tag, body.len(), g.supplied[idx].1)));
+                        }
+                        next_supplied = idx + 1;
+                    }
+                }
+                seen_tags.push(tag);
+                v.app_responses += 1;
+            }
+            other => {
+                return Err(("unexpected-status".into(), format!("c{}g{} received status {}", g.client, g.gen, other)));
+            }
+        }
+    }
+    Ok(v)
+}
+
+impl Drop for Sim {
+    fn drop(&mut self) {
+        if let Some(p) = &self.sock_path {
+            let _ = std::fs::remove_file(p);
+        }
+    }
+}
